@@ -25,7 +25,7 @@ def applyTok (addr : Nat → Nat) (n : Nat) (s : St) (tok : String) : Option St 
   let idx (r : List Char) : Option Nat := do let c ← numOf r; if c < n then some c else none
   match tok.toList with
   | 'J' :: r => do let c ← idx r; step addr s (.joinStart c)
-  | 's' :: r => do let c ← idx r; chk (s.jpc c == .pending) s
+  | 's' :: r => do let _ ← idx r; some s   -- entering the select is not a model step
   | 'A' :: r => do let a ← numOf r; step addr s (.avail a)
   | 'U' :: r => do let a ← numOf r; step addr s (.unavail a)
   | 'E' :: 'j' :: r => do let c ← idx r; step addr s (.joinError c)
@@ -47,7 +47,7 @@ def applyTok (addr : Nat → Nat) (n : Nat) (s : St) (tok : String) : Option St 
       chk (s'.lastJoin c == some (.err .ctxErr)) s'
     else none
   | 'L' :: r => do let c ← idx r; step addr s (.leaveStart c)
-  | 'l' :: r => do let c ← idx r; chk (s.lpc c == .waiting) s
+  | 'l' :: r => do let _ ← idx r; some s
   | 'D' :: r =>
     let str := String.ofList r
     if str.endsWith "ok" then do
